@@ -744,10 +744,13 @@ type C19Idle struct {
 	// Fresh: the connection has never carried an envelope when it goes idle (it was created by NewConnection and only
 	// ever had a reader blocked on it, or deliveries parked for it)
 	Fresh bool `json:"fresh,omitempty"`
+	// Abandoned: this many deliveries were parked in ServeHTTP for lack of a reader and then given up by their sender
+	// (the POST's context ended) before anything else happens
+	Abandoned int `json:"abandoned,omitempty"`
 }
 
 func genC19Idle(t *rapid.T) C19Idle {
-	return C19Idle{Parked: rapid.IntRange(0, 3).Draw(t, "parked"), ReaderOn: rapid.Bool().Draw(t, "reader"), AgeSec: rapid.Int64Range(-2, 2).Draw(t, "age"), Ticks: rapid.IntRange(1, 3).Draw(t, "ticks"), Fresh: rapid.IntRange(0, 2).Draw(t, "fresh") == 0}
+	return C19Idle{Parked: rapid.IntRange(0, 3).Draw(t, "parked"), ReaderOn: rapid.Bool().Draw(t, "reader"), AgeSec: rapid.Int64Range(-2, 2).Draw(t, "age"), Ticks: rapid.IntRange(1, 3).Draw(t, "ticks"), Fresh: rapid.IntRange(0, 2).Draw(t, "fresh") == 0, Abandoned: rapid.SampledFrom([]int{0, 0, 1, 2}).Draw(t, "abandoned")}
 }
 
 func execC19Idle(t *testing.T, c C19Idle) (v Verdict) {
@@ -767,7 +770,7 @@ func execC19Idle(t *testing.T, c C19Idle) (v Verdict) {
 		goh := goat.NewGoatOverHttp(func(id string, rw goat.RpcReadWriter) { mu.Lock(); conn = rw; mu.Unlock() }, func(s string) (string, error) { return s, nil },
 			goat.WithClock(clk), goat.WithConnectionCleanupInterval(interval), goat.WithConnectionTimeout(timeout))
 		defer goh.Cancel()
-		post := func(i int, done chan struct{}) {
+		post := func(i int, done chan struct{}, rctx ...context.Context) {
 			defer close(done)
 			defer func() {
 				if r := recover(); r != nil {
@@ -778,7 +781,11 @@ func execC19Idle(t *testing.T, c C19Idle) (v Verdict) {
 			}()
 			data, _ := proto.Marshal(&goat.Rpc{Id: uint64(i), Header: &goatorepo.RequestHeader{Method: "/x/y", Source: "peer", Destination: "d"}, Body: &goatorepo.Body{Data: []byte{byte(i)}}})
 			rec := httptest.NewRecorder()
-			goh.ServeHTTP(rec, httptest.NewRequest("POST", "/", bytes.NewReader(data)))
+			req := httptest.NewRequest("POST", "/", bytes.NewReader(data))
+			if len(rctx) > 0 {
+				req = req.WithContext(rctx[0])
+			}
+			goh.ServeHTTP(rec, req)
 			mu.Lock()
 			codes = append(codes, rec.Code)
 			mu.Unlock()
@@ -804,6 +811,20 @@ func execC19Idle(t *testing.T, c C19Idle) (v Verdict) {
 				return
 			}
 			kit.Settle()
+		}
+		// deliveries that park for lack of a reader and are then given up by their sender
+		for i := 0; i < c.Abandoned; i++ {
+			actx, acancel := context.WithCancel(context.Background())
+			d := make(chan struct{})
+			go post(200+i, d, actx)
+			kit.Settle()
+			acancel()
+			kit.Settle()
+			select {
+			case <-d:
+			default:
+				v.failf("a POST whose request context had ended is still parked in ServeHTTP")
+			}
 		}
 		// park further deliveries / a reader
 		var dones []chan struct{}
@@ -856,7 +877,7 @@ func execC19Idle(t *testing.T, c C19Idle) (v Verdict) {
 	if c.ReaderOn && readerReturned && readerErr == nil {
 		v.failf("reader returned an envelope that nobody sent")
 	}
-	v.Info = kit.CaseInfo{Labels: []string{fmt.Sprintf("idle.parked=%d", c.Parked), fmt.Sprintf("idle.expired=%v", expired), fmt.Sprintf("idle.reader=%v", c.ReaderOn), fmt.Sprintf("idle.fresh=%v", c.Fresh)}, NonTrivial: true, Key: fmt.Sprintf("%+v", c), Sample: c}
+	v.Info = kit.CaseInfo{Labels: []string{fmt.Sprintf("idle.parked=%d", c.Parked), fmt.Sprintf("idle.expired=%v", expired), fmt.Sprintf("idle.reader=%v", c.ReaderOn), fmt.Sprintf("idle.fresh=%v", c.Fresh), fmt.Sprintf("idle.abandoned_posts=%v", c.Abandoned > 0)}, NonTrivial: true, Key: fmt.Sprintf("%+v", c), Sample: c}
 	return
 }
 
@@ -1173,3 +1194,97 @@ func execC19Reuse(t *testing.T, c C19Reuse) (v Verdict) {
 }
 
 func TestC19Reuse(t *testing.T) { checkProp(t, "C19", "object-reuse", genC19Reuse, execC19Reuse) }
+
+// ---- HTTP: the first envelopes of one source arrive at the same instant -------------------------------
+
+// C19First: N POSTs carrying the first envelopes of one source enter ServeHTTP at the same instant (released from a
+// spin barrier; no sockets in between, so the instants really coincide), on a fresh receiving endpoint, Rounds times.
+// One source is one logical connection: it must be announced once, and all N envelopes must be readable from it.
+type C19First struct {
+	N      int `json:"n"`
+	Rounds int `json:"rounds"`
+}
+
+func genC19First(t *rapid.T) C19First {
+	return C19First{N: rapid.IntRange(2, 8).Draw(t, "n"), Rounds: rapid.IntRange(8, 24).Draw(t, "rounds")}
+}
+
+func execC19First(t *testing.T, c C19First) (v Verdict) {
+	for r := 0; r < c.Rounds && v.Fail == ""; r++ {
+		var announced atomic.Int32
+		conns := make(chan goat.RpcReadWriter, c.N)
+		recv := goat.NewGoatOverHttp(func(id string, rw goat.RpcReadWriter) {
+			announced.Add(1)
+			conns <- rw
+		}, func(src string) (string, error) { return "addr-of-" + src, nil })
+		var arrived atomic.Int32
+		codes := make([]int, c.N)
+		var wg sync.WaitGroup
+		for i := 0; i < c.N; i++ {
+			i := i
+			data, _ := proto.Marshal(&goat.Rpc{Id: uint64(i + 1), Header: &goatorepo.RequestHeader{Method: "/x/y", Source: "peer", Destination: "d"}, Body: &goatorepo.Body{Data: []byte{byte(i)}}})
+			wg.Add(1)
+			go func() {
+				defer wg.Done()
+				rec := httptest.NewRecorder()
+				req := httptest.NewRequest("POST", "/", bytes.NewReader(data))
+				arrived.Add(1)
+				for arrived.Load() < int32(c.N) {
+					// spin: all N leave within nanoseconds of each other
+				}
+				recv.ServeHTTP(rec, req)
+				codes[i] = rec.Code
+			}()
+		}
+		// read N envelopes from whatever connections get announced (each delivery waits for a reader)
+		seen := map[uint64]bool{}
+		ctx, cancel := context.WithTimeout(context.Background(), netBudget)
+		var rws []goat.RpcReadWriter
+		got := make(chan *goat.Rpc, c.N)
+		var rwg sync.WaitGroup
+		collect := func(rw goat.RpcReadWriter) {
+			rws = append(rws, rw)
+			rwg.Add(1)
+			go func() {
+				defer rwg.Done()
+				for {
+					x, err := rw.Read(ctx)
+					if err != nil {
+						return
+					}
+					got <- x
+				}
+			}()
+		}
+		for len(seen) < c.N && ctx.Err() == nil {
+			select {
+			case rw := <-conns:
+				collect(rw)
+			case x := <-got:
+				seen[x.GetId()] = true
+			case <-ctx.Done():
+			}
+		}
+		timedOut := ctx.Err() != nil
+		cancel()
+		wg.Wait()
+		rwg.Wait()
+		recv.Cancel()
+		if n := announced.Load(); n != 1 {
+			v.failf("http: %d POSTs with the first envelopes of one source entered ServeHTTP together (round %d): the endpoint announced %d logical connections for that source, want 1", c.N, r, n)
+		} else if timedOut {
+			inconclusive(t, "http: concurrent first deliveries exceeded %v", netBudget)
+		} else if len(seen) != c.N {
+			v.failf("http: %d of %d first envelopes were delivered", len(seen), c.N)
+		}
+		for i, code := range codes {
+			if v.Fail == "" && !timedOut && code != 200 {
+				v.failf("http: POST %d of a well-formed envelope was answered %d", i, code)
+			}
+		}
+	}
+	v.Info = kit.CaseInfo{Labels: []string{"first-envelopes-together"}, NonTrivial: true, Key: fmt.Sprintf("%+v", c), Sample: c}
+	return
+}
+
+func TestC19First(t *testing.T) { checkProp(t, "C19", "first", genC19First, execC19First) }
